@@ -609,8 +609,8 @@ pub fn run_replay_child(exe: &str, id: &str, tier: Tier, path: &str, root: &str)
 pub fn apply_child_limits() {
     unsafe {
         let lim = libc::rlimit {
-            rlim_cur: 12 << 30,
-            rlim_max: 12 << 30,
+            rlim_cur: 4 << 30,
+            rlim_max: 4 << 30,
         };
         libc::setrlimit(libc::RLIMIT_AS, &lim);
         let nocore = libc::rlimit { rlim_cur: 0, rlim_max: 0 };
